@@ -334,7 +334,7 @@ func TestC16Bursts(t *testing.T) {
 	if n < 64 {
 		n = 64
 	}
-	bursts := 3
+	bursts := 2
 	if thorough() {
 		bursts = 12
 	}
@@ -344,14 +344,29 @@ func TestC16Bursts(t *testing.T) {
 	}
 	byFam["qr"] = append(byFam["qr"], errorPathSpecs...)
 	byFam["qr"] = append(byFam["qr"], rsPool[:10]...)
+	// many different medium-sized QR symbols (versions ~4..14): results that depend on how busy the encoder is
+	// (work split over helper goroutines, shared scoring state) show as a different symbol than when encoded alone
+	for i := 0; i < 48; i++ {
+		n := 60 + (i*37)%340
+		byFam["qr"] = append(byFam["qr"], EncSpec{Fam: "qr", Content: BStr(fillPattern(2+i%2, int64(1000+i), n)), A: i % 4, B: []int{2, 3, 0}[i%3]})
+	}
+	for i := 0; i < 16; i++ {
+		byFam["datamatrix"] = append(byFam["datamatrix"], EncSpec{Fam: "datamatrix", Content: BStr(fillPattern(2, int64(2000+i), 150+(i*97)%900))})
+		byFam["aztec"] = append(byFam["aztec"], EncSpec{Fam: "aztec", Content: BStr(fillPattern(2+i%2, int64(3000+i), 40+(i*53)%500)), A: 23 + i%20})
+		byFam["pdf417"] = append(byFam["pdf417"], EncSpec{Fam: "pdf417", Content: BStr(fillPDF(i%4, int64(4000+i), 30+(i*71)%600)), A: i % 6})
+	}
 	for _, fam := range allFamilies {
 		pool := byFam[fam]
 		if len(pool) == 0 {
 			continue
 		}
 		for b := 0; b < bursts; b++ {
-			c := ConcCase{Procs: runtime.NumCPU(), Repeat: 2, Scale: b%2 == 1}
-			for i := 0; i < n; i++ {
+			c := ConcCase{Procs: runtime.NumCPU(), Repeat: 1, Scale: b%2 == 1}
+			nn := n
+			if fam != "qr" && !thorough() {
+				nn = n / 2 // the semaphore-style defects seen so far needed > 2 x NumCPU callers only for QR
+			}
+			for i := 0; i < nn; i++ {
 				c.Specs = append(c.Specs, pool[(i+b)%len(pool)])
 			}
 			checkC16(t, c)
